@@ -5,6 +5,7 @@ go 1.23.0
 require (
 	github.com/blang/semver v3.5.1+incompatible
 	github.com/janelia-flyem/dvid v0.0.0
+	github.com/valyala/gorpc v0.0.0-20160519171614-908281bef774
 	google.golang.org/protobuf v1.33.0
 )
 
@@ -65,7 +66,6 @@ require (
 	github.com/rs/cors v1.8.2 // indirect
 	github.com/santhosh-tekuri/jsonschema/v5 v5.0.1 // indirect
 	github.com/twinj/uuid v1.0.0 // indirect
-	github.com/valyala/gorpc v0.0.0-20160519171614-908281bef774 // indirect
 	github.com/zenazn/goji v1.0.1 // indirect
 	go.opencensus.io v0.24.0 // indirect
 	gocloud.dev v0.24.0 // indirect
